@@ -616,6 +616,86 @@ fn kv_mode(inputs: &[Value], seed: u64, si: usize, sn: usize, out: &mut TraceOut
             n += 1;
         }
     }
+    // a REQUEST frame far larger than any buffer (just above 64 KiB, 1 MiB, 4 MiB; 16 MiB in the long run) with more
+    // requests pipelined behind it, delivered all at once / with the tail of the large request in one segment with the
+    // next requests / one request per write: one reply per request, in order, byte for byte, and the store holds what was
+    // acknowledged (too large for the trace: judged against the expected bytes here, recorded as counts)
+    if si == 1 % sn {
+        let big_sizes: &[usize] = if std::env::var("VERIF_TIER").map(|t| t == "thorough").unwrap_or(false) {
+            &[65_537, 1_048_577, 4_194_305, 16_777_217]
+        } else {
+            &[65_537, 1_048_577, 4_194_305]
+        };
+        for &vlen in big_sizes {
+            for how in ["all-at-once", "tail-with-next", "split-mid-next", "one-per-write"] {
+                pend.set(&json!({"ev": "kvbig", "vlen": vlen, "how": how, "phase": "run"}));
+                let sc = Scratch::new("net");
+                let kv = open_real_store(sc.path(), 1_000_000);
+                let h = kv.get_handle();
+                let srv = start_server(h.clone(), 8);
+                let value: Vec<u8> = (0..vlen).map(|i| if i % 101 == 0 { b'\r' } else if i % 103 == 0 { b'\n' } else { b'a' + (i % 26) as u8 }).collect();
+                let wire: Vec<Vec<u8>> = vec![
+                    cmd(&[b"SET", b"big", &value]),
+                    cmd(&[b"SET", b"x", b"1"]),
+                    cmd(&[b"GET", b"x"]),
+                    cmd(&[b"DEL", b"x", b"nope"]),
+                    cmd(&[b"GET", b"x"]),
+                    cmd(&[b"SET", b"y", b"2"]),
+                ];
+                let expect: Vec<Vec<u8>> = vec![b"+OK\r\n".to_vec(), b"+OK\r\n".to_vec(), bulk(b"1"), b":1\r\n".to_vec(), b"$-1\r\n".to_vec(), b"+OK\r\n".to_vec()];
+                let all: Vec<u8> = wire.concat();
+                let l0 = wire[0].len();
+                let segs: Vec<Vec<u8>> = match how {
+                    "all-at-once" => vec![all.clone()],
+                    "tail-with-next" => vec![all[..l0 - 2].to_vec(), all[l0 - 2..].to_vec()],
+                    "split-mid-next" => vec![all[..l0 + 7].to_vec(), all[l0 + 7..].to_vec()],
+                    _ => wire.clone(),
+                };
+                let mut recv: Vec<u8> = vec![];
+                let mut ending = "ok";
+                if let Some(mut s) = connect(srv.addr) {
+                    for (i, seg) in segs.iter().enumerate() {
+                        if s.write_all(seg).is_err() {
+                            ending = "send-failed";
+                            break;
+                        }
+                        if i + 1 < segs.len() {
+                            std::thread::sleep(Duration::from_millis(if how == "one-per-write" { 5 } else { 150 }));
+                        }
+                    }
+                    if ending == "ok" {
+                        let (b, e) = read_reply_bytes(&mut s, wire.len(), Duration::from_secs(20));
+                        recv = b;
+                        ending = e;
+                    }
+                    let (extra, _) = read_some(&mut s, 1, Duration::from_millis(20));
+                    recv.extend(extra);
+                } else {
+                    ending = "connect-failed";
+                }
+                let want: Vec<u8> = expect.concat();
+                let mut exact = 0usize;
+                let mut at = 0usize;
+                for e in &expect {
+                    if recv.len() >= at + e.len() && recv[at..at + e.len()] == e[..] {
+                        exact += 1;
+                        at += e.len();
+                    } else {
+                        break;
+                    }
+                }
+                let store_ok = h.get(Bytes::from_static(b"big")).ok().flatten().map(|b| b[..] == value[..]).unwrap_or(false)
+                    && h.get(Bytes::from_static(b"x")).ok().flatten().is_none()
+                    && h.get(Bytes::from_static(b"y")).ok().flatten().map(|b| &b[..] == b"2").unwrap_or(false);
+                srv.stop();
+                drop(kv);
+                pend.clear();
+                out.emit(&json!({"ev": "kvbig", "vlen": vlen, "how": how, "requests": wire.len(), "exact": exact, "received": recv.len(),
+                                 "expected": want.len(), "ending": ending, "store_ok": store_ok}));
+                n += 1;
+            }
+        }
+    }
     n
 }
 
@@ -797,11 +877,34 @@ fn hostile_mode(inputs: &[Value], _seed: u64, si: usize, sn: usize, out: &mut Tr
             fresh_ok = e == "ok" && b == bulk(&cv);
         }
         drop(lingering);
+        // the full configured number of connections can still be served at once (the control connection plus
+        // max - 1 new ones, all open together): a hostile stream must not cost the server a connection slot
+        let mut capacity_ok = true;
+        if fresh_ok {
+            let mut open = vec![];
+            for _ in 0..3 {
+                match connect(srv.addr) {
+                    Some(mut f) => {
+                        let _ = f.write_all(&cmd(&[b"GET", &ck]));
+                        let (b, e) = read_reply_bytes(&mut f, 1, Duration::from_secs(6));
+                        if !(e == "ok" && b == bulk(&cv)) {
+                            capacity_ok = false;
+                        }
+                        open.push(f);
+                    }
+                    None => capacity_ok = false,
+                }
+                if !capacity_ok {
+                    break;
+                }
+            }
+            drop(open);
+        }
         let store = store_contents(&h, &[ck.clone(), b"victim".to_vec(), b"alpha".to_vec()]);
         pend.clear();
         out.emit(&json!({"ev": "hostile", "tag": inp["tag"], "stream": if short { bj(&stream) } else { json!([]) }, "len": stream.len(),
                          "hostile_recv": bj(&hostile_recv[..hostile_recv.len().min(200)]), "hostile_end": hostile_end,
-                         "control": ctl, "ck": bj(&ck), "cv": bj(&cv), "fresh_ok": fresh_ok, "store": store}));
+                         "control": ctl, "ck": bj(&ck), "cv": bj(&cv), "fresh_ok": fresh_ok, "capacity_ok": capacity_ok, "store": store}));
         n += 1;
         if round % 3 == 0 {
             // keep within max_connections: leaked hostile sockets are closed by dropping the process-wide list
@@ -809,7 +912,7 @@ fn hostile_mode(inputs: &[Value], _seed: u64, si: usize, sn: usize, out: &mut Tr
         }
         // the server failed the control connection: that is the verdict, do not grind through the
         // rest of the streams against a broken server
-        if ctl.iter().any(|c| c["ending"] != "ok") || !fresh_ok {
+        if ctl.iter().any(|c| c["ending"] != "ok") || !fresh_ok || !capacity_ok {
             break;
         }
     }
